@@ -27,7 +27,7 @@ ASSUMPTIONS = ["range/arange parameters are generated so that (stop-start)/step 
                "(numpy.arange accumulates n roundings of the step)",
                "a zero first radius and repeated radii are outside the statement (skipped, counted)"]
 EXHAUSTIVE = {"quick": False, "thorough": False}
-MIN_NONTRIVIAL = {"quick": 1000, "thorough": 20000}
+MIN_NONTRIVIAL = {"quick": 1000, "thorough": 100000}
 
 NUM = r"[-+]?(?:\d+\.?\d*|\.\d+)(?:[eE][-+]?\d+)?"
 
@@ -356,7 +356,7 @@ def run_short_lists(tr, spec):
 
 
 def shards(tier, seed):
-    n, per = (6, 500) if tier == "quick" else (16, 3750)
+    n, per = (6, 500) if tier == "quick" else (16, 30000)
     out = [{"kind": "random", "rseed": seed * 1000 + i, "count": per} for i in range(n)]
     out.append({"kind": "short_lists"})
     return out
